@@ -21,14 +21,14 @@ HARNESS = [vf.kit(PKG, "c21"),
            ("tokenauth/tokens_export.go", "internal/language/tokens/zz_verif_c21_export.go")]
 
 # generator configs: (cfg, simulate num quick/thorough, behaviours replayed quick/thorough)
-GENS = [("GenCore", 60, 400, 30, 400),
-        ("GenInputs", 40, 200, 14, 120),
-        ("GenRace", 200, 1200, 6, 50),
-        ("GenRevCached", 2000, 8000, 6, 40),
-        ("GenUnrevDel", 2000, 8000, 5, 30),
-        ("GenUnrevFl", 2000, 8000, 5, 30),
-        ("GenHits", 600, 3000, 6, 50),
-        ("GenTick", 600, 3000, 6, 32)]
+GENS = [("GenCore", 60, 400, 30, 200),
+        ("GenInputs", 40, 200, 14, 60),
+        ("GenRace", 200, 1200, 6, 30),
+        ("GenRevCached", 2000, 8000, 6, 24),
+        ("GenUnrevDel", 2000, 8000, 5, 20),
+        ("GenUnrevFl", 2000, 8000, 5, 20),
+        ("GenHits", 600, 3000, 6, 30),
+        ("GenTick", 600, 3000, 6, 24)]
 
 
 def _hooks_present():
@@ -156,7 +156,7 @@ def run():
         bad[k]["st"]["tcache"] = [t for t in bad[k]["st"]["tcache"] if t != bad[k]["call"]["t"]]
         bfs = vf.write_ndjson(os.path.join(sd, "selftest.ndjson"), [bad])
         nsh = 8 if thorough else 6
-        tmo = 6000 if thorough else 3000
+        tmo = 20000 if thorough else 3000
         mout = os.path.join(sd, "mut.ndjson")
         with ThreadPoolExecutor(max_workers=nsh + 2) as ex:
             fs = [ex.submit(_run_test, binp, sd, "TestVerifC21Replay",
